@@ -25,8 +25,10 @@ def gen_cases(ctx, n_grammars, n_inputs):
             ("nullable", lambda: G.nullable_heavy(rng)),
             ("expr", lambda: G.expr_grammar(rng)),
             ("exprnoprec", lambda: G.expr_grammar(rng, with_prec=False)),
-            ("notlalr", lambda: G.not_lalr_template(rng))]
-    weights = [2, 5, 4, 2, 1, 2]
+            ("notlalr", lambda: G.not_lalr_template(rng)),
+            ("layered", lambda: G.layered_grammar(rng).reduced()),
+            ("chain", lambda: G.chain_grammar(rng).reduced())]
+    weights = [2, 5, 4, 2, 1, 2, 8, 4]
     while len(cases) < n_grammars:
         name, f = rng.choices(fams, weights)[0]
         g = f()
